@@ -36,7 +36,7 @@ structure Node where
   poolW : World               -- the pool's state view (state of the block it was last notified of)
 
 def emptyWorld : World :=
-  { nonce := fun _ => 0, led := { bal := fun _ => 0, names := fun _ => none, pend := [] } }
+  { nonce := fun _ => 0, led := { bal := fun _ => 0, names := fun _ => none, pend := [], creator := fun _ => [] } }
 
 def Node.init : Node :=
   { cid := [], acceptCid := [], pub := false, maxAER := 0, txs := [], blks := [], best := 0, accts := [], shown := [], hashes := [], names := [],
@@ -235,6 +235,7 @@ def parseCmd (s : String) : Option Cmd :=
   match s.splitOn ":" with
   | ["c", n] => (unhex n).map .create
   | ["u", n, to] => do let n ← unhex n; let to ← unhex to; pure (.update n to)
+  | ["d", a] => (unhex a).map .deploy
   | _ => none
 
 /-- signature reference: `k:<addr>` signed now with that key, `t:<tid>` copied from a transaction, `x:<hex>` raw, `-` none -/
@@ -275,7 +276,7 @@ def step (nd : Node) (line : String) : Node × String :=
     match unhex cid, unhex acid, mx.toNat?, g.toNat?, addrs.mapM unhex with
     | some cid, some acid, some mx, some g, some addrs =>
       let W : World := { nonce := fun _ => 0,
-                         led := { bal := fun a => if addrs.contains a then g else 0, names := fun _ => none, pend := [] } }
+                         led := { bal := fun a => if addrs.contains a then g else 0, names := fun _ => none, pend := [], creator := fun _ => [] } }
       let accts := addrs ++ [aergoName]
       let P := (Pool.Pool.init.setStateDB 1 0 1 (sigmaOf W accts)).1
       ({ Node.init with cid := cid, acceptCid := acid, pub := pub == "1", maxAER := mx, accts := accts, shown := accts,
